@@ -136,3 +136,20 @@ def xof(nbytes):
     if nbytes not in _xof:
         _xof[nbytes] = type("Xof%d" % nbytes, (_XofBase,), {"size": nbytes, "digest_size": nbytes})
     return _xof[nbytes]
+
+
+def find_curve_of_order(N, pmin=5):
+    """A curve over a small prime field whose group has exactly N points (N prime), with a generator."""
+    p = pmin
+    while True:
+        if all(p % q for q in range(2, int(p ** 0.5) + 1)) and p > 3:
+            lo, hi = p + 1 - 2 * int(p ** 0.5) - 1, p + 1 + 2 * int(p ** 0.5) + 1
+            if lo <= N <= hi:
+                for a in range(p):
+                    for b in range(p):
+                        if (4 * a ** 3 + 27 * b * b) % p == 0:
+                            continue
+                        pts = t_points(p, a, b)
+                        if len(pts) + 1 == N:
+                            return (p, a, b, N, pts[0], 1)
+        p += 1
